@@ -23,18 +23,18 @@ def parse_runs(pid, props, nq, nt, wq, wt, mq, mt, extra=(), ip6=False):
     return {'quick': mk(nq, wq, mq, 400) + list(extra), 'thorough': mk(nt, wt, mt, 2400) + list(extra)}
 
 SPECS = {}
-SPECS['C01'] = {'runs': parse_runs('C01', ['C01'], 6, 7, 4, 5, 6, 7, ip6=True), 'assumptions': COMMON_ASSUME + ['oracle G: minimal DFA generated on every run from doc/rfc3986_grammar_only.txt (ABNF string literals case-insensitive per RFC 5234)'],
-    'bounds': {'quick': 'N<=6 (char), N<=4 (wchar_t), IP-literal tail M<=6', 'thorough': 'N<=7 (char), N<=5 (wchar_t), M<=7'},
+SPECS['C01'] = {'runs': parse_runs('C01', ['C01'], 7, 9, 5, 6, 7, 8, ip6=True), 'assumptions': COMMON_ASSUME + ['oracle G: minimal DFA generated on every run from doc/rfc3986_grammar_only.txt (ABNF string literals case-insensitive per RFC 5234)'],
+    'bounds': {'quick': 'N<=7 (char), N<=5 (wchar_t), IP-literal tail M<=7; shape-bounded IPv6 literals, IPv4 hosts, every authority shape; all five entry points N<=4', 'thorough': 'N<=9 (char), N<=6 (wchar_t), M<=8; plus full-class shape-bounded texts'},
     'outside': 'longer texts; entry points other than uriParseSingleUriExMm are covered by the h_entry run'}
-SPECS['C02'] = {'runs': parse_runs('C02', ['C02'], 6, 7, 4, 5, 6, 7, ip6=True), 'assumptions': COMMON_ASSUME + ['oracle S: RFC 3986 Appendix B splitter + numeric IPv4/IPv6 evaluation (oracle/oracle_split.h)'],
-    'bounds': {'quick': 'N<=6 (char), N<=4 (wchar_t), IP-literal tail M<=6', 'thorough': 'N<=7, W N<=5, M<=7'}, 'outside': 'longer texts'}
-SPECS['C03'] = {'runs': parse_runs('C03', ['C03'], 6, 7, 4, 5, 6, 7, extra=[
+SPECS['C02'] = {'runs': parse_runs('C02', ['C02'], 7, 9, 5, 6, 7, 8, ip6=True), 'assumptions': COMMON_ASSUME + ['oracle S: RFC 3986 Appendix B splitter + numeric IPv4/IPv6 evaluation (oracle/oracle_split.h)'],
+    'bounds': {'quick': 'N<=7 (char), N<=5 (wchar_t), IP-literal tail M<=7; shape-bounded IPv6 / IPv4 / authority texts', 'thorough': 'N<=9, W N<=6, M<=8'}, 'outside': 'longer texts'}
+SPECS['C03'] = {'runs': parse_runs('C03', ['C03'], 7, 9, 5, 6, 7, 8, extra=[
         R('parseMID', 'h_parse.c', ['P_C03', 'P_C02', 'MID', 'NMAX=5'], 'range of length 0..5 in the middle of a buffer with 2 symbolic characters on each side', ['accepted'], 600),
         R('parseFAIL', 'h_parse.c', ['P_C03', 'FAILING', 'NMAX=5'], 'every subset of failing allocations, texts of length 0..5', ['alloc-failure-injected'], 600)]),
-    'assumptions': COMMON_ASSUME, 'bounds': {'quick': 'N<=6 / W N<=4 / M<=6; mid-buffer and failure injection N<=5', 'thorough': 'N<=7 / W 5 / M<=7'}, 'outside': 'longer texts'}
+    'assumptions': COMMON_ASSUME, 'bounds': {'quick': 'N<=7 / W N<=5 / M<=7; mid-buffer and failure injection N<=5', 'thorough': 'N<=9 / W 6 / M<=8'}, 'outside': 'longer texts'}
 HOSTS_RUN = lambda P, b: R('parse-hosts', 'h_parse.c', ['P_' + p for p in P] + ['GENTEXT=(G_SCHEME_OPT|G_AUTH_REQ|G_USERINFO|G_PORT|G_HOSTKINDS|G_EMPTYHOST)', 'GENK=1', 'GENL=1'], '[scheme] // [userinfo@] host [:port] [/seg]: every host kind incl. IPv4 with 1..3 digit octets and full-form IPv6, characters over [a-z] / digits', ['host-ip4', 'host-ip6', 'host-ipfuture', 'host-regname'], b)
 GENTEXT_RUN = lambda P, b: R('parse-shapes', 'h_parse.c', ['P_' + p for p in P] + ['GEN_WIDE_CHARS', 'GENTEXT=(G_SCHEME_OPT|G_AUTH|G_USERINFO|G_PORT|G_EMPTYHOST|G_QUERY|G_FRAG|G_PCT)', 'GENK=1', 'GENL=1'], 'shape-bounded texts with every optional component, every character over its full RFC 3986 class, one percent triplet (up to ~14 characters)', ['accepted', 'host-regname', 'has-scheme'], b)
-SPECS['C04'] = {'runs': parse_runs('C04', ['C04'], 5, 6, 3, 4, 5, 6, ip6=True), 'assumptions': COMMON_ASSUME, 'bounds': {'quick': 'N<=5, W N<=3, M<=5', 'thorough': 'N<=6, W 4, M<=6'}, 'outside': 'longer texts'}
+SPECS['C04'] = {'runs': parse_runs('C04', ['C04'], 6, 7, 4, 5, 6, 7, ip6=True), 'assumptions': COMMON_ASSUME, 'bounds': {'quick': 'N<=6, W N<=4, M<=6; shape-bounded IPv6 / IPv4 / authority texts', 'thorough': 'N<=7, W 5, M<=7'}, 'outside': 'longer texts'}
 IP4_RUN = lambda P, b: R('parse-ip4', 'h_parse.c', ['P_' + p for p in P] + ['GEN_IP4_FULL', 'GENTEXT=(G_AUTH_REQ|G_PORT|G_HOSTKINDS)', 'GENK=0', 'GENL=1'], '//N.0.0.M[:port] with N and M of 1..3 fully symbolic digits (IPv4 exactly when both are dec-octets, else reg-name), plus the other host kinds', ['host-ip4', 'host-regname'], b)
 for _p in ('C01', 'C02', 'C04'):
     SPECS[_p]['runs']['quick'].append(IP4_RUN([_p], 600)); SPECS[_p]['runs']['thorough'].append(IP4_RUN([_p], 1200))
